@@ -396,7 +396,7 @@ func c07Jobs(c *ctx) (small []iso.Job, large []iso.Job) {
 }
 
 func runC07(c *ctx) {
-	c.Rule = "inputs run in child worker processes (ulimit -v 4 GiB, watchdog); oracle: no panic escapes hsms.Parse, the worker does not abort, the decoder's item-step counter (hook H3) stays within len(input)+2, TotalAlloc delta <= 1 MiB + 2048*len(input). Families: every format x 1/2/3 length bytes x declared length {0,1,255,256,65535,65536,2^24-1} x bytes present {0,1,declared-1,declared} at list depth {0,1,2,7,64} inside over-declaring lists; long legitimate items; long items of every format with hostile payload patterns (0x00, 0x7F, 0x80, 0xFF, alternating 7/8-bit, pseudo-random, quote/backslash/line-break/UTF-8 runs, 8-bit second half); lists of many small items of every format; generated legitimate trees up to ~1 MB; nested lists each declaring the largest count the remaining bytes allow; closed/unclosed one-element list chains; every single-point fault of seed encodings (the C03 enumerator); random bytes behind a correct length prefix; seven 1 KiB messages (refused after part was decoded, and accepted) each repeated thousands of times in one worker process (per-call allocation must not depend on history); a complete list of n items followed in the same message by chains of over-declaring list headers (hostile tail behind a legitimate prefix); the deep-chain probe. non-trivial = input declares a length larger than the bytes that follow, or is >= 4 KiB; distinct by hash Also (rounds 4-8): payload patterns in long items; seven 1 KiB messages repeated thousands of times and 150000/600000 pairwise different tiny messages in one worker; a hostile tail behind a legitimate prefix; 2000..60000 different texts in ascending/descending/shuffled order; every proper prefix of whole frames with the length left alone; eight frames decoded at the same moment by eight goroutines; hook H4; retained heap over the batch."
+	c.Rule = "inputs run in child worker processes (ulimit -v 4 GiB, watchdog); oracle: no panic escapes hsms.Parse, the worker does not abort, the decoder's item-step counter (hook H3) stays within len(input)+2, TotalAlloc delta <= 1 MiB + 2048*len(input). Families: every format x 1/2/3 length bytes x declared length {0,1,255,256,65535,65536,2^24-1} x bytes present {0,1,declared-1,declared} at list depth {0,1,2,7,64} inside over-declaring lists; long legitimate items; long items of every format with hostile payload patterns (0x00, 0x7F, 0x80, 0xFF, alternating 7/8-bit, pseudo-random, quote/backslash/line-break/UTF-8 runs, 8-bit second half); lists of many small items of every format; generated legitimate trees up to ~1 MB; nested lists each declaring the largest count the remaining bytes allow; closed/unclosed one-element list chains; every single-point fault of seed encodings (the C03 enumerator); random bytes behind a correct length prefix; seven 1 KiB messages (refused after part was decoded, and accepted) each repeated thousands of times in one worker process (per-call allocation must not depend on history); a complete list of n items followed in the same message by chains of over-declaring list headers (hostile tail behind a legitimate prefix); the deep-chain probe. non-trivial = input declares a length larger than the bytes that follow, or is >= 4 KiB; distinct by hash Also (rounds 4-8): payload patterns in long items; seven 1 KiB messages repeated thousands of times and 150000/600000 pairwise different tiny messages in one worker; a hostile tail behind a legitimate prefix; 2000..60000 different texts in ascending/descending/shuffled order; every proper prefix of whole frames with the length left alone; eight frames decoded at the same moment by eight goroutines; hook H4; retained heap over the batch. Also (round 9): nests of depth 250..20000 whose bottom list lacks exactly its last declared element."
 	c.Assume = []string{"runtime.MemStats.TotalAlloc measures the memory allocated during one call in a single-goroutine worker", "the bound's constants (1 MiB + 2048 B/byte) are ~4x the most expensive legitimate construct measured on this tree"}
 
 	small, large := c07Jobs(c)
